@@ -7,10 +7,14 @@ use std::sync::Arc;
 use llfree::{Alloc, LLFree};
 
 use crate::crash::{Crash, Ledger};
-use crate::exec::{Arenas, Call, ClassKind, Config, ErrKind, Outcome, create, exec, guarded, panic_signature};
+use crate::exec::{
+    Arenas, Call, ClassKind, Config, ErrKind, Outcome, create, exec, guarded, panic_signature,
+};
 use crate::json::J;
 use crate::model::{Block, HUGE_FRAMES, HUGE_ORDER, Model, PutVerdict, TREE_FRAMES, TREE_ORDER};
-use crate::oracle::{Props, Violation, check_class_sums, check_views, class_permitted, compare_frames, tree_snapshot};
+use crate::oracle::{
+    Props, Violation, check_class_sums, check_views, class_permitted, compare_frames, tree_snapshot,
+};
 use crate::rng::{Hasher, Rng};
 use crate::world::{Shared, ThreadCtx, World, enter, leave, masked};
 
@@ -31,7 +35,10 @@ pub enum Step {
         slot: Option<usize>,
     },
     /// C10a: drain, then a base-order allocation
-    ProbeBase { class: u8, slot: Option<usize> },
+    ProbeBase {
+        class: u8,
+        slot: Option<usize>,
+    },
     /// C10b: drain, then a targeted allocation
     ProbeAt {
         frame: usize,
@@ -40,15 +47,25 @@ pub enum Step {
         slot: Option<usize>,
     },
     /// base-order allocations until out of memory (judged call by call, state compared at the end)
-    Exhaust { class: u8, slot: Option<usize> },
+    Exhaust {
+        class: u8,
+        slot: Option<usize>,
+    },
     /// free every held block of one tree (mode 0: without a slot, 1: through the slot, 2: mixed)
-    FreeTree { tree: usize, mode: u8, class: u8, slot: Option<usize> },
+    FreeTree {
+        tree: usize,
+        mode: u8,
+        class: u8,
+        slot: Option<usize>,
+    },
     /// C07: warm handoff - build a second allocator (assume-initialized) over byte copies of the
     /// three metadata buffers; from now on both are driven in lock-step
     Warm,
     /// restart in place at a quiescent point: `recover` = cold (volatile buffers zeroed,
     /// Init::Recover), otherwise warm (all three buffers as they are, Init::None)
-    Reinit { recover: bool },
+    Reinit {
+        recover: bool,
+    },
 }
 
 fn opt_u(j: Option<&J>) -> Option<usize> {
@@ -59,7 +76,12 @@ impl Step {
     pub fn to_json(&self) -> J {
         match self {
             Step::Call(c) => c.to_json(),
-            Step::PutHeld { k, sub, class, slot } => J::obj()
+            Step::PutHeld {
+                k,
+                sub,
+                class,
+                slot,
+            } => J::obj()
                 .set("op", "put_held")
                 .set("k", *k)
                 .set("sub_order", sub.map(|s| s.0))
@@ -90,7 +112,12 @@ impl Step {
                 .set("op", "exhaust")
                 .set("class", *class)
                 .set("slot", *slot),
-            Step::FreeTree { tree, mode, class, slot } => J::obj()
+            Step::FreeTree {
+                tree,
+                mode,
+                class,
+                slot,
+            } => J::obj()
                 .set("op", "free_tree")
                 .set("tree", *tree)
                 .set("mode", *mode)
@@ -309,10 +336,17 @@ pub fn gen_frames(rng: &mut Rng, max_trees: usize, allow_zero: bool) -> usize {
         0 => rng.range(1, max_trees) * TREE_FRAMES,
         1 => rng.range(1, max / HUGE_FRAMES) * HUGE_FRAMES,
         2 => rng.range(1, max / 64) * 64,
-        3 => rng.range(1, max_trees) * TREE_FRAMES - rng.range(0, crate::model::TREE_HUGE - 1) * HUGE_FRAMES,
+        3 => {
+            rng.range(1, max_trees) * TREE_FRAMES
+                - rng.range(0, crate::model::TREE_HUGE - 1) * HUGE_FRAMES
+        }
         _ => rng.range(1, max),
     };
-    let delta = if rng.chance(1, 2) { 0 } else { rng.range(0, 6) as isize - 3 };
+    let delta = if rng.chance(1, 2) {
+        0
+    } else {
+        rng.range(0, 6) as isize - 3
+    };
     let f = (base as isize + delta).clamp(0, max as isize) as usize;
     if f == 0 && !allow_zero { 1 } else { f }
 }
@@ -320,25 +354,50 @@ pub fn gen_frames(rng: &mut Rng, max_trees: usize, allow_zero: bool) -> usize {
 pub fn gen_config(rng: &mut Rng, p: &Profile) -> Config {
     if p.single {
         return Config {
-            frames: rng.range(2, p.max_trees.max(2)) * TREE_FRAMES - if rng.chance(1, 3) { rng.range(0, HUGE_FRAMES) } else { 0 },
+            frames: rng.range(2, p.max_trees.max(2)) * TREE_FRAMES
+                - if rng.chance(1, 3) {
+                    rng.range(0, HUGE_FRAMES)
+                } else {
+                    0
+                },
             alloc_all: false,
             kind: ClassKind::Simple,
             slots: vec![1, if rng.chance(1, 2) { 0 } else { 1 }],
         };
     }
     let allow_zero = p.open && rng.chance(1, 40);
-    let frames = if allow_zero { 0 } else { gen_frames(rng, p.max_trees, false) };
+    // now and then many trees: the tree search (neighbourhood size, candidate buffer of the
+    // best-fit search) behaves differently once there are more trees than its constants
+    let many = (65536 / TREE_FRAMES).clamp(p.max_trees, 24);
+    let max_trees = if p.max_trees >= 4 && rng.chance(1, 12) {
+        rng.range(p.max_trees + 1, many.max(p.max_trees + 1))
+    } else {
+        p.max_trees
+    };
+    let frames = if allow_zero {
+        0
+    } else {
+        gen_frames(rng, max_trees, false)
+    };
     let kind = match rng.below(if p.custom { 4 } else { 3 }) {
         0 => ClassKind::Simple,
         1 => ClassKind::Movable,
         2 => ClassKind::Zeroed,
         _ => ClassKind::Custom,
     };
-    let kind = if p.custom && rng.chance(1, 2) { ClassKind::Custom } else { kind };
+    let kind = if p.custom && rng.chance(1, 2) {
+        ClassKind::Custom
+    } else {
+        kind
+    };
     let mut slots: Vec<usize> = (0..kind.classes()).map(|_| rng.range(1, 3)).collect();
     // classes without local slots: often in the opened-up space of C09, sometimes everywhere
     // else (C02 names the zero-slot classings), never for the drain probes of C10 (1-3 slots)
-    let zero = if p.open { rng.chance(1, 3) } else { p.w_probe_base == 0 && rng.chance(1, 6) };
+    let zero = if p.open {
+        rng.chance(1, 3)
+    } else {
+        p.w_probe_base == 0 && rng.chance(1, 6)
+    };
     if zero {
         let i = rng.below(slots.len());
         slots[i] = 0;
@@ -371,7 +430,10 @@ impl SeqCase {
             .set("config", self.cfg.to_json())
             .set("buffers_at_end_guard", self.at_end)
             .set("lower_fill", self.lower_fill)
-            .set("steps", J::Arr(self.steps.iter().map(Step::to_json).collect()))
+            .set(
+                "steps",
+                J::Arr(self.steps.iter().map(Step::to_json).collect()),
+            )
     }
     pub fn from_json(j: &J) -> Option<Self> {
         Some(Self {
@@ -477,7 +539,11 @@ impl Run<'_> {
         }
         let class = rng.below(self.cfg.slots.len()) as u8;
         let n = self.cfg.slots[class as usize];
-        let slot = if n == 0 || rng.chance(1, 4) { None } else { Some(rng.below(n)) };
+        let slot = if n == 0 || rng.chance(1, 4) {
+            None
+        } else {
+            Some(rng.below(n))
+        };
         (class, slot)
     }
     fn gen_order(&self, rng: &mut Rng) -> usize {
@@ -532,7 +598,9 @@ impl Run<'_> {
         ];
         let (class, slot) = self.gen_class_slot(rng);
         match rng.weighted(&w) {
-            12 => Step::Reinit { recover: rng.chance(1, 2) },
+            12 => Step::Reinit {
+                recover: rng.chance(1, 2),
+            },
             0 => Step::Call(Call::Get {
                 target: None,
                 order: self.gen_order(rng),
@@ -547,7 +615,11 @@ impl Run<'_> {
                         order: b.order,
                         class,
                         // valid-parameter rule: any in-range slot or none
-                        slot: if p.open || rng.chance(1, 2) { slot } else { None },
+                        slot: if p.open || rng.chance(1, 2) {
+                            slot
+                        } else {
+                            None
+                        },
                     }),
                     None => Step::Call(Call::Drain),
                 }
@@ -557,15 +629,28 @@ impl Run<'_> {
                 sub: None,
                 class,
                 // C11: each frame is freed either through the slot or with no slot
-                slot: if p.single && rng.chance(1, 2) { None } else { slot },
+                slot: if p.single && rng.chance(1, 2) {
+                    None
+                } else {
+                    slot
+                },
             },
             3 => {
                 let k = rng.below(self.ledger.held.len());
                 let b = *self.ledger.held.values().nth(k).unwrap();
                 if b.order == 0 {
-                    Step::PutHeld { k, sub: None, class, slot }
+                    Step::PutHeld {
+                        k,
+                        sub: None,
+                        class,
+                        slot,
+                    }
                 } else {
-                    let so = if rng.chance(1, 2) { 0 } else { rng.below(b.order) };
+                    let so = if rng.chance(1, 2) {
+                        0
+                    } else {
+                        rng.below(b.order)
+                    };
                     Step::PutHeld {
                         k,
                         sub: Some((so, rng.below(1 << (b.order - so)))),
@@ -625,16 +710,28 @@ impl Run<'_> {
                 let t = rng.below(id_space);
                 Call::Change {
                     id: Some(t),
-                    mclass: if rng.chance(1, 4) { some_class(rng) } else { None },
+                    mclass: if rng.chance(1, 4) {
+                        some_class(rng)
+                    } else {
+                        None
+                    },
                     mfree: self.model.tree_len(t).max(1),
-                    class: if rng.chance(1, 4) { some_class(rng) } else { None },
+                    class: if rng.chance(1, 4) {
+                        some_class(rng)
+                    } else {
+                        None
+                    },
                     op: 2,
                 }
             }
             // offline by class matcher
             3 => Call::Change {
                 id: None,
-                mclass: if rng.chance(1, 2) { some_class(rng) } else { None },
+                mclass: if rng.chance(1, 2) {
+                    some_class(rng)
+                } else {
+                    None
+                },
                 mfree: TREE_FRAMES,
                 class: None,
                 op: 2,
@@ -642,22 +739,43 @@ impl Run<'_> {
             // online an offline tree (or any)
             4..=6 => {
                 let t = if !self.model.offline.is_empty() && rng.chance(4, 5) {
-                    *self.model.offline.iter().nth(rng.below(self.model.offline.len())).unwrap()
+                    *self
+                        .model
+                        .offline
+                        .iter()
+                        .nth(rng.below(self.model.offline.len()))
+                        .unwrap()
                 } else {
                     rng.below(id_space)
                 };
                 Call::Change {
                     id: if rng.chance(4, 5) { Some(t) } else { None },
-                    mclass: if rng.chance(1, 5) { some_class(rng) } else { None },
+                    mclass: if rng.chance(1, 5) {
+                        some_class(rng)
+                    } else {
+                        None
+                    },
                     mfree: 0,
-                    class: if rng.chance(1, 2) { some_class(rng) } else { None },
+                    class: if rng.chance(1, 2) {
+                        some_class(rng)
+                    } else {
+                        None
+                    },
                     op: 1,
                 }
             }
             // class change only
             _ => Call::Change {
-                id: if rng.chance(1, 2) { Some(rng.below(id_space)) } else { None },
-                mclass: if rng.chance(1, 2) { some_class(rng) } else { None },
+                id: if rng.chance(1, 2) {
+                    Some(rng.below(id_space))
+                } else {
+                    None
+                },
+                mclass: if rng.chance(1, 2) {
+                    some_class(rng)
+                } else {
+                    None
+                },
                 mfree: *rng.pick(&[0, 1, TREE_FRAMES / 2, TREE_FRAMES]),
                 class: some_class(rng),
                 op: 0,
@@ -678,7 +796,12 @@ impl Run<'_> {
                     slot,
                 }
             } else {
-                Call::Put { frame, order, class, slot }
+                Call::Put {
+                    frame,
+                    order,
+                    class,
+                    slot,
+                }
             }
         };
         match rng.below(6) {
@@ -708,7 +831,11 @@ impl Run<'_> {
                 };
                 // aligned, but the block must extend past the range
                 let f = f.next_multiple_of(len);
-                let f = if f + len <= n { n.next_multiple_of(len) } else { f };
+                let f = if f + len <= n {
+                    n.next_multiple_of(len)
+                } else {
+                    f
+                };
                 mk(f, order, class)
             }
             // misaligned
@@ -731,11 +858,25 @@ impl Run<'_> {
                     }
                 } else {
                     let len = 1usize << order;
-                    let f = if n >= len { rng.below(n / len) * len } else { 0 };
-                    if is_get {
-                        Call::Get { target: Some(f), order, class: c, slot: None }
+                    let f = if n >= len {
+                        rng.below(n / len) * len
                     } else {
-                        Call::Put { frame: f, order, class: c, slot: None }
+                        0
+                    };
+                    if is_get {
+                        Call::Get {
+                            target: Some(f),
+                            order,
+                            class: c,
+                            slot: None,
+                        }
+                    } else {
+                        Call::Put {
+                            frame: f,
+                            order,
+                            class: c,
+                            slot: None,
+                        }
                     }
                 }
             }
@@ -766,11 +907,21 @@ impl Run<'_> {
     fn resolve(&self, step: &Step) -> Option<Call> {
         match step {
             Step::Call(c) => Some(c.clone()),
-            Step::PutHeld { k, sub, class, slot } => {
+            Step::PutHeld {
+                k,
+                sub,
+                class,
+                slot,
+            } => {
                 if self.ledger.held.is_empty() {
                     return None;
                 }
-                let b = *self.ledger.held.values().nth(k % self.ledger.held.len()).unwrap();
+                let b = *self
+                    .ledger
+                    .held
+                    .values()
+                    .nth(k % self.ledger.held.len())
+                    .unwrap();
                 let (frame, order) = match sub {
                     Some((so, idx)) if *so < b.order => {
                         let parts = 1usize << (b.order - so);
@@ -789,7 +940,12 @@ impl Run<'_> {
                 if self.ledger.held.is_empty() {
                     return None;
                 }
-                let b = *self.ledger.held.values().nth(k % self.ledger.held.len()).unwrap();
+                let b = *self
+                    .ledger
+                    .held
+                    .values()
+                    .nth(k % self.ledger.held.len())
+                    .unwrap();
                 if b.order >= TREE_ORDER {
                     return None;
                 }
@@ -879,7 +1035,8 @@ impl Run<'_> {
         }
         self.ledger.ret(id, &outcome);
         self.stats.calls += 1;
-        self.hasher.add_bytes(format!("{call:?}{outcome:?}").as_bytes());
+        self.hasher
+            .add_bytes(format!("{call:?}{outcome:?}").as_bytes());
         self.history.push((call.clone(), outcome.clone()));
 
         // ---- judge ----
@@ -888,7 +1045,11 @@ impl Run<'_> {
             self.report(
                 Violation::new(
                     if valid { "C09" } else { "C08" },
-                    if valid { panic_signature(msg, loc) } else { format!("invalid-argument-{}", panic_signature(msg, loc)) },
+                    if valid {
+                        panic_signature(msg, loc)
+                    } else {
+                        format!("invalid-argument-{}", panic_signature(msg, loc))
+                    },
                     format!("call #{id} {call:?} panicked: {msg} at {loc}"),
                 ),
                 true,
@@ -923,7 +1084,9 @@ impl Run<'_> {
                         Violation::new(
                             "C08",
                             "invalid-argument-not-rejected",
-                            format!("call #{id} {call:?} has invalid arguments but returned {outcome:?}"),
+                            format!(
+                                "call #{id} {call:?} has invalid arguments but returned {outcome:?}"
+                            ),
                         ),
                         fatal,
                     );
@@ -934,7 +1097,15 @@ impl Run<'_> {
             }
         } else {
             match (&call, &outcome) {
-                (Call::Get { target, order, class, .. }, Outcome::GetOk { frame, class: c }) => {
+                (
+                    Call::Get {
+                        target,
+                        order,
+                        class,
+                        ..
+                    },
+                    Outcome::GetOk { frame, class: c },
+                ) => {
                     let b = Block::new(*frame, *order);
                     self.stats.gets_ok += 1;
                     if let Some(t) = target
@@ -955,7 +1126,10 @@ impl Run<'_> {
                             Violation::new(
                                 "C01",
                                 "get-misaligned-or-out-of-range",
-                                format!("call #{id} {call:?} returned frame {frame} (frames={})", self.cfg.frames),
+                                format!(
+                                    "call #{id} {call:?} returned frame {frame} (frames={})",
+                                    self.cfg.frames
+                                ),
                             ),
                             true,
                         );
@@ -965,11 +1139,16 @@ impl Run<'_> {
                         let v = Violation::new(
                             "C02",
                             "get-returned-allocated-block",
-                            format!("call #{id} {call:?} returned frame {frame}, but the block is not entirely free in the model"),
+                            format!(
+                                "call #{id} {call:?} returned frame {frame}, but the block is not entirely free in the model"
+                            ),
                         );
                         // the same fact is a C01 violation (overlap with a held block)
                         if self.props.has(1) && !self.props.has(2) {
-                            self.report(Violation::new("C01", "seq-overlap", v.detail.clone()), true);
+                            self.report(
+                                Violation::new("C01", "seq-overlap", v.detail.clone()),
+                                true,
+                            );
                         } else {
                             self.report(v, true);
                         }
@@ -980,7 +1159,10 @@ impl Run<'_> {
                             Violation::new(
                                 "C15",
                                 "get-from-offline-tree",
-                                format!("call #{id} {call:?} returned frame {frame} in offline tree {}", b.tree()),
+                                format!(
+                                    "call #{id} {call:?} returned frame {frame} in offline tree {}",
+                                    b.tree()
+                                ),
                             ),
                             true,
                         );
@@ -1006,7 +1188,9 @@ impl Run<'_> {
                             Violation::new(
                                 "C10",
                                 "valid-get-wrong-error",
-                                format!("call #{id} {call:?} has valid arguments but returned {e:?}"),
+                                format!(
+                                    "call #{id} {call:?} has valid arguments but returned {e:?}"
+                                ),
                             ),
                             false,
                         );
@@ -1058,10 +1242,19 @@ impl Run<'_> {
         }
 
         // tree changes are judged by observation of the tree array
-        if let Call::Change { id: mid, mclass, mfree, class, op } = &call {
+        if let Call::Change {
+            id: mid,
+            mclass,
+            mfree,
+            class,
+            op,
+        } = &call
+        {
             let before = snap_before.as_ref().unwrap();
             let after = masked(|| tree_snapshot(&self.alloc, self.cfg.trees()));
-            let diff: Vec<usize> = (0..before.len()).filter(|&t| before[t] != after[t]).collect();
+            let diff: Vec<usize> = (0..before.len())
+                .filter(|&t| before[t] != after[t])
+                .collect();
             let matches_t = |t: usize| {
                 let (c, f, r) = before[t];
                 !r && mclass.is_none_or(|m| m == c) && f >= *mfree
@@ -1071,7 +1264,11 @@ impl Run<'_> {
                     self.stats.changes_ok += 1;
                     if diff.len() > 1 {
                         self.report(
-                            Violation::new("C15", "change-touched-several-trees", format!("call #{id} {call:?} changed trees {diff:?}")),
+                            Violation::new(
+                                "C15",
+                                "change-touched-several-trees",
+                                format!("call #{id} {call:?} changed trees {diff:?}"),
+                            ),
                             true,
                         );
                         return;
@@ -1094,14 +1291,25 @@ impl Run<'_> {
                                 false,
                             );
                         }
-                        return self.after_call(id, &call, &outcome, valid, changed_model, snap_before, fast_before);
+                        return self.after_call(
+                            id,
+                            &call,
+                            &outcome,
+                            valid,
+                            changed_model,
+                            snap_before,
+                            fast_before,
+                        );
                     };
                     if !matches_t(t) || mid.is_some_and(|m| m != t) {
                         self.report(
                             Violation::new(
                                 "C15",
                                 "change-applied-to-reserved-or-nonmatching",
-                                format!("call #{id} {call:?} changed tree {t} from {:?} to {:?}", before[t], after[t]),
+                                format!(
+                                    "call #{id} {call:?} changed tree {t} from {:?} to {:?}",
+                                    before[t], after[t]
+                                ),
                             ),
                             false,
                         );
@@ -1111,7 +1319,15 @@ impl Run<'_> {
                             self.stop = true;
                             return;
                         }
-                        return self.after_call(id, &call, &outcome, valid, changed_model, snap_before, fast_before);
+                        return self.after_call(
+                            id,
+                            &call,
+                            &outcome,
+                            valid,
+                            changed_model,
+                            snap_before,
+                            fast_before,
+                        );
                     }
                     let want_class = class.unwrap_or(before[t].0);
                     if after[t].0 != want_class || after[t].2 {
@@ -1153,7 +1369,14 @@ impl Run<'_> {
                         _ => {
                             if after[t].1 != before[t].1 {
                                 self.report(
-                                    Violation::new("C15", "class-change-modified-counter", format!("call #{id} {call:?}: tree {t} {:?} -> {:?}", before[t], after[t])),
+                                    Violation::new(
+                                        "C15",
+                                        "class-change-modified-counter",
+                                        format!(
+                                            "call #{id} {call:?}: tree {t} {:?} -> {:?}",
+                                            before[t], after[t]
+                                        ),
+                                    ),
                                     true,
                                 );
                                 return;
@@ -1165,7 +1388,11 @@ impl Run<'_> {
                     self.stats.changes_err += 1;
                     if !diff.is_empty() {
                         self.report(
-                            Violation::new("C15", "failed-change-modified-tree", format!("call #{id} {call:?} failed but changed trees {diff:?}")),
+                            Violation::new(
+                                "C15",
+                                "failed-change-modified-tree",
+                                format!("call #{id} {call:?} failed but changed trees {diff:?}"),
+                            ),
                             true,
                         );
                         return;
@@ -1188,7 +1415,17 @@ impl Run<'_> {
             }
         }
 
-        self.after_call2(id, &call, &outcome, valid, changed_model, snap_before, fast_before, probe, model_before_free);
+        self.after_call2(
+            id,
+            &call,
+            &outcome,
+            valid,
+            changed_model,
+            snap_before,
+            fast_before,
+            probe,
+            model_before_free,
+        );
     }
 
     #[allow(clippy::too_many_arguments)]
@@ -1202,7 +1439,17 @@ impl Run<'_> {
         snap_before: Option<Vec<(u8, usize, bool)>>,
         fast_before: Option<usize>,
     ) {
-        self.after_call2(id, call, outcome, valid, changed_model, snap_before, fast_before, None, 0)
+        self.after_call2(
+            id,
+            call,
+            outcome,
+            valid,
+            changed_model,
+            snap_before,
+            fast_before,
+            None,
+            0,
+        )
     }
 
     #[allow(clippy::too_many_arguments)]
@@ -1257,7 +1504,10 @@ impl Run<'_> {
                 let unreserved: usize = snap.iter().filter(|t| !t.2).map(|t| t.1).sum();
                 self.stats.oom_with_reserved_global_free += 1;
                 let sig = if unreserved == 0 && reserved_global == model_before_free {
-                    format!("oom-with-free:all-in-own-reserved-tree-global-counter:{}", reserved_global.min(2))
+                    format!(
+                        "oom-with-free:all-in-own-reserved-tree-global-counter:{}",
+                        reserved_global.min(2)
+                    )
                 } else {
                     "oom-with-free:other".to_string()
                 };
@@ -1287,10 +1537,16 @@ impl Run<'_> {
                 );
                 return;
             }
-            let cmp = masked(|| guarded(|| twin_diff(&self.alloc, twin, &mut self.vrng, self.cfg.frames)));
+            let cmp = masked(|| {
+                guarded(|| twin_diff(&self.alloc, twin, &mut self.vrng, self.cfg.frames))
+            });
             if let Ok(Some(d)) = cmp {
                 self.report(
-                    Violation::new("C07", "lockstep-stats-differ", format!("after call #{id} {call:?} -> {outcome:?}: {d}")),
+                    Violation::new(
+                        "C07",
+                        "lockstep-stats-differ",
+                        format!("after call #{id} {call:?} -> {outcome:?}: {d}"),
+                    ),
                     true,
                 );
                 return;
@@ -1314,7 +1570,11 @@ impl Run<'_> {
             let cmp = masked(|| guarded(|| compare_frames(&self.alloc, &self.model)));
             match cmp {
                 Ok(Some((f, got_free, want_free))) => {
-                    let (prop, sig) = if !valid { ("C08", "rejected-call-changed-state") } else { ("C02", "frame-state-diverged") };
+                    let (prop, sig) = if !valid {
+                        ("C08", "rejected-call-changed-state")
+                    } else {
+                        ("C02", "frame-state-diverged")
+                    };
                     self.report(
                         Violation::new(
                             prop,
@@ -1327,7 +1587,11 @@ impl Run<'_> {
                 }
                 Err(Outcome::Panic { msg, loc }) => {
                     self.report(
-                        Violation::new("C09", format!("query-{}", panic_signature(&msg, &loc)), format!("stats_at panicked after call #{id}: {msg} at {loc}")),
+                        Violation::new(
+                            "C09",
+                            format!("query-{}", panic_signature(&msg, &loc)),
+                            format!("stats_at panicked after call #{id}: {msg} at {loc}"),
+                        ),
                         true,
                     );
                     return;
@@ -1371,17 +1635,41 @@ impl Run<'_> {
 
     fn do_step(&mut self, step: &Step) {
         match step {
-            Step::FreeTree { tree, mode, class, slot } => {
+            Step::FreeTree {
+                tree,
+                mode,
+                class,
+                slot,
+            } => {
                 let lo = tree * TREE_FRAMES;
-                let blocks: Vec<Block> = self.ledger.held.range(lo..lo + TREE_FRAMES).map(|(_, b)| *b).collect();
+                let blocks: Vec<Block> = self
+                    .ledger
+                    .held
+                    .range(lo..lo + TREE_FRAMES)
+                    .map(|(_, b)| *b)
+                    .collect();
                 self.light = true;
                 for (i, b) in blocks.iter().enumerate() {
                     let s = match mode {
                         0 => None,
                         1 => *slot,
-                        _ => if i % 3 == 0 { *slot } else { None },
+                        _ => {
+                            if i % 3 == 0 {
+                                *slot
+                            } else {
+                                None
+                            }
+                        }
                     };
-                    self.do_call(Call::Put { frame: b.frame, order: b.order, class: *class, slot: s }, None);
+                    self.do_call(
+                        Call::Put {
+                            frame: b.frame,
+                            order: b.order,
+                            class: *class,
+                            slot: s,
+                        },
+                        None,
+                    );
                     if self.stop {
                         break;
                     }
@@ -1390,7 +1678,9 @@ impl Run<'_> {
                 if !self.stop {
                     self.lower_changed();
                     self.stats.full_compares += 1;
-                    if let Ok(Some((f, got, want))) = masked(|| guarded(|| compare_frames(&self.alloc, &self.model))) {
+                    if let Ok(Some((f, got, want))) =
+                        masked(|| guarded(|| compare_frames(&self.alloc, &self.model)))
+                    {
                         self.report(
                             Violation::new("C02", "frame-state-diverged", format!("after freeing tree {tree}: frame {f} free={got} in the allocator, free={want} in the model")),
                             true,
@@ -1419,7 +1709,9 @@ impl Run<'_> {
                     self.lower_changed();
                     self.calls_since_full = 0;
                     self.stats.full_compares += 1;
-                    if let Ok(Some((f, got, want))) = masked(|| guarded(|| compare_frames(&self.alloc, &self.model))) {
+                    if let Ok(Some((f, got, want))) =
+                        masked(|| guarded(|| compare_frames(&self.alloc, &self.model)))
+                    {
                         self.report(
                             Violation::new(
                                 "C02",
@@ -1450,7 +1742,11 @@ impl Run<'_> {
                     if !c.args_valid(&self.cfg) {
                         return;
                     }
-                    if let Call::Get { target: Some(t), order, .. } = &c
+                    if let Call::Get {
+                        target: Some(t),
+                        order,
+                        ..
+                    } = &c
                         && self.model.get_allowed(&Block::new(*t, *order))
                     {
                         self.stats.probes_at_expected_ok += 1;
@@ -1488,9 +1784,25 @@ impl Run<'_> {
                 l.fill(0);
                 t.fill(0);
             }
-            create(&cfg, if recover { llfree::Init::Recover } else { llfree::Init::None }, crate::exec::Bufs { local: l, trees: t, lower: p })
+            create(
+                &cfg,
+                if recover {
+                    llfree::Init::Recover
+                } else {
+                    llfree::Init::None
+                },
+                crate::exec::Bufs {
+                    local: l,
+                    trees: t,
+                    lower: p,
+                },
+            )
         });
-        let what = if recover { "Init::Recover over its own persistent buffer" } else { "Init::None over its own buffers" };
+        let what = if recover {
+            "Init::Recover over its own persistent buffer"
+        } else {
+            "Init::None over its own buffers"
+        };
         match r {
             Ok(Ok(a)) => {
                 self.alloc = a;
@@ -1509,7 +1821,9 @@ impl Run<'_> {
                 }
                 self.lower_changed();
                 self.stats.full_compares += 1;
-                if let Ok(Some((f, got, want))) = masked(|| guarded(|| compare_frames(&self.alloc, &self.model))) {
+                if let Ok(Some((f, got, want))) =
+                    masked(|| guarded(|| compare_frames(&self.alloc, &self.model)))
+                {
                     self.report(
                         Violation::new(
                             if recover { "C05" } else { "C07" },
@@ -1534,7 +1848,11 @@ impl Run<'_> {
                 true,
             ),
             Err(Outcome::Panic { msg, loc }) => self.report(
-                Violation::new("C09", format!("reinit-{}", panic_signature(&msg, &loc)), format!("{what} panicked: {msg} at {loc}")),
+                Violation::new(
+                    "C09",
+                    format!("reinit-{}", panic_signature(&msg, &loc)),
+                    format!("{what} panicked: {msg} at {loc}"),
+                ),
                 true,
             ),
             Err(_) => self.stop = true,
@@ -1546,7 +1864,9 @@ impl Run<'_> {
         if self.twin.is_some() || cfg!(miri) {
             return;
         }
-        let Some(side) = self.side.clone() else { return };
+        let Some(side) = self.side.clone() else {
+            return;
+        };
         self.stats.handoffs += 1;
         let (local, trees, lower) = {
             let w = self.shared.lock();
@@ -1555,26 +1875,52 @@ impl Run<'_> {
         let r = masked(|| {
             let bufs = unsafe { side.bufs(&self.cfg, true, 0) };
             unsafe {
-                bufs.local.copy_from_slice(std::slice::from_raw_parts(local.start as *const u8, local.len));
-                bufs.trees.copy_from_slice(std::slice::from_raw_parts(trees.start as *const u8, trees.len));
-                bufs.lower.copy_from_slice(std::slice::from_raw_parts(lower.start as *const u8, lower.len));
+                bufs.local.copy_from_slice(std::slice::from_raw_parts(
+                    local.start as *const u8,
+                    local.len,
+                ));
+                bufs.trees.copy_from_slice(std::slice::from_raw_parts(
+                    trees.start as *const u8,
+                    trees.len,
+                ));
+                bufs.lower.copy_from_slice(std::slice::from_raw_parts(
+                    lower.start as *const u8,
+                    lower.len,
+                ));
             }
             create(&self.cfg, llfree::Init::None, bufs)
         });
         match r {
             Ok(Ok(twin)) => {
-                let cmp = masked(|| guarded(|| twin_diff(&self.alloc, &twin, &mut self.vrng, self.cfg.frames)));
+                let cmp = masked(|| {
+                    guarded(|| twin_diff(&self.alloc, &twin, &mut self.vrng, self.cfg.frames))
+                });
                 if let Ok(Some(d)) = cmp {
-                    self.report(Violation::new("C07", "handoff-stats-differ", format!("right after the handoff: {d}")), true);
+                    self.report(
+                        Violation::new(
+                            "C07",
+                            "handoff-stats-differ",
+                            format!("right after the handoff: {d}"),
+                        ),
+                        true,
+                    );
                 }
                 self.twin = Some(twin);
             }
             Ok(Err(e)) => self.report(
-                Violation::new("C07", "handoff-init-error", format!("LLFree::new(Init::None) over the copied buffers returned {e:?}")),
+                Violation::new(
+                    "C07",
+                    "handoff-init-error",
+                    format!("LLFree::new(Init::None) over the copied buffers returned {e:?}"),
+                ),
                 true,
             ),
             Err(Outcome::Panic { msg, loc }) => self.report(
-                Violation::new("C07", format!("handoff-{}", panic_signature(&msg, &loc)), format!("LLFree::new(Init::None) panicked: {msg} at {loc}")),
+                Violation::new(
+                    "C07",
+                    format!("handoff-{}", panic_signature(&msg, &loc)),
+                    format!("LLFree::new(Init::None) panicked: {msg} at {loc}"),
+                ),
                 true,
             ),
             Err(_) => {}
@@ -1585,7 +1931,9 @@ impl Run<'_> {
 /// First observable difference between two allocators (statistics views)
 fn twin_diff(a: &LLFree, b: &LLFree, rng: &mut Rng, frames: usize) -> Option<String> {
     let (sa, sb) = (a.stats(), b.stats());
-    if (sa.free_frames, sa.free_huge, sa.free_trees) != (sb.free_frames, sb.free_huge, sb.free_trees) {
+    if (sa.free_frames, sa.free_huge, sa.free_trees)
+        != (sb.free_frames, sb.free_huge, sb.free_trees)
+    {
         return Some(format!("stats() {sa:?} vs {sb:?}"));
     }
     let (ta, tb) = (a.tree_stats(), b.tree_stats());
@@ -1593,7 +1941,10 @@ fn twin_diff(a: &LLFree, b: &LLFree, rng: &mut Rng, frames: usize) -> Option<Str
         (
             t.free_frames,
             t.free_trees,
-            t.classes.iter().map(|c| (c.free_frames, c.alloc_frames)).collect::<Vec<_>>(),
+            t.classes
+                .iter()
+                .map(|c| (c.free_frames, c.alloc_frames))
+                .collect::<Vec<_>>(),
         )
     };
     if key(&ta) != key(&tb) {
@@ -1604,8 +1955,13 @@ fn twin_diff(a: &LLFree, b: &LLFree, rng: &mut Rng, frames: usize) -> Option<Str
             let f = rng.below(frames);
             for order in [0, HUGE_ORDER, TREE_ORDER] {
                 let f = f >> order << order;
-                let (x, y) = (a.stats_at(llfree::FrameId(f), order), b.stats_at(llfree::FrameId(f), order));
-                if (x.free_frames, x.free_huge, x.free_trees) != (y.free_frames, y.free_huge, y.free_trees) {
+                let (x, y) = (
+                    a.stats_at(llfree::FrameId(f), order),
+                    b.stats_at(llfree::FrameId(f), order),
+                );
+                if (x.free_frames, x.free_huge, x.free_trees)
+                    != (y.free_frames, y.free_huge, y.free_trees)
+                {
                     return Some(format!("stats_at({f}, {order}) {x:?} vs {y:?}"));
                 }
             }
@@ -1622,6 +1978,9 @@ impl SeqRunner<'_> {
         let cfg = case.cfg.clone();
         let mut world = World::new(1, 0);
         world.state_sample = 4;
+        // sequential histories are bounded per call only (a bulk step is many short calls)
+        world.step_cap = u64::MAX;
+        world.call_cap += 2_000 * cfg.trees() as u64;
         let crash_on = self.props.has(5) && self.side.is_some();
         let bufs = unsafe { self.arenas.bufs(&cfg, case.at_end, case.lower_fill) };
         let (lp, ll) = (bufs.lower.as_ptr(), bufs.lower.len());
@@ -1638,7 +1997,11 @@ impl SeqRunner<'_> {
         let alloc = match create(&cfg, cfg.init(), bufs) {
             Ok(Ok(a)) => a,
             Ok(Err(e)) => {
-                let v = Violation::new("C09", "init-error", format!("LLFree::new({cfg:?}) returned {e:?}"));
+                let v = Violation::new(
+                    "C09",
+                    "init-error",
+                    format!("LLFree::new({cfg:?}) returned {e:?}"),
+                );
                 if self.props.has(9) || self.props.has(6) {
                     res.violations.push(v);
                 } else {
@@ -1647,7 +2010,11 @@ impl SeqRunner<'_> {
                 return res;
             }
             Err(Outcome::Panic { msg, loc }) => {
-                let v = Violation::new("C09", format!("init-{}", panic_signature(&msg, &loc)), format!("LLFree::new({cfg:?}) panicked: {msg} at {loc}"));
+                let v = Violation::new(
+                    "C09",
+                    format!("init-{}", panic_signature(&msg, &loc)),
+                    format!("LLFree::new({cfg:?}) panicked: {msg} at {loc}"),
+                );
                 if self.props.has(9) {
                     res.violations.push(v);
                 } else {
@@ -1680,7 +2047,11 @@ impl SeqRunner<'_> {
             tid: 0,
             shared: &shared,
         };
-        let model = if cfg.alloc_all { Model::new_alloc(cfg.frames) } else { Model::new_free(cfg.frames) };
+        let model = if cfg.alloc_all {
+            Model::new_alloc(cfg.frames)
+        } else {
+            Model::new_free(cfg.frames)
+        };
         let mut run = Run {
             ledger: Ledger::new(cfg.frames, cfg.alloc_all),
             cfg,
@@ -1710,7 +2081,14 @@ impl SeqRunner<'_> {
             let cmp = masked(|| guarded(|| compare_frames(&run.alloc, &run.model)));
             if let Ok(Some((f, got, want))) = cmp {
                 run.report(
-                    Violation::new("C06", "init-frame-state", format!("after init {:?}: frame {f} free={got}, model free={want}", run.cfg)),
+                    Violation::new(
+                        "C06",
+                        "init-frame-state",
+                        format!(
+                            "after init {:?}: frame {f} free={got}, model free={want}",
+                            run.cfg
+                        ),
+                    ),
                     true,
                 );
             }
@@ -1726,12 +2104,20 @@ impl SeqRunner<'_> {
         }
         enter(&ctx);
         if let Some((rng, n)) = generate.as_mut() {
-            let warm_at = if run.profile.warm { rng.below((*n).max(1)) } else { usize::MAX };
+            let warm_at = if run.profile.warm {
+                rng.below((*n).max(1))
+            } else {
+                usize::MAX
+            };
             for i in 0..*n {
                 if run.stop {
                     break;
                 }
-                let step = if i == warm_at { Step::Warm } else { run.gen_step(rng) };
+                let step = if i == warm_at {
+                    Step::Warm
+                } else {
+                    run.gen_step(rng)
+                };
                 case.steps.push(step.clone());
                 run.do_step(&step);
             }
@@ -1777,7 +2163,11 @@ pub fn gen_case(rng: &mut Rng, profile: &Profile) -> (SeqCase, usize) {
             profile: profile.name.to_string(),
             cfg,
             at_end: rng.chance(1, 2),
-            lower_fill: if rng.chance(1, 2) { 0 } else { rng.below(256) as u8 },
+            lower_fill: if rng.chance(1, 2) {
+                0
+            } else {
+                rng.below(256) as u8
+            },
             steps: Vec::new(),
         },
         n,
